@@ -25,6 +25,9 @@ CLAIMS = {
     "C14": ("proof",
             "A property of histories, decided as a representation invariant plus frame conditions on the real class: the frame checker infers assigns(m) for every method of Crystal (aliases, in-place operations, setattr/delattr, transitive self calls) and discharges: every query is pure w.r.t. cell/space group/asymmetric unit; each memo field has a single writer behind its `if hasattr: return` guard and is computed from core state only; every method that assigns core state deletes every memo field after its last core store and drops/refreshes stale stored CIF items; objects held by memos are read-only apart from one write-once annotation. The induction over history length is the cited Hoare-logic meta-theorem; a native replay of histories up to length 3-4 against fresh crystals is the bounded stand-in for it.",
             "syntactic frame inference (assumes called numpy/scipy/chmpy helpers mutate arguments only through tracked forms); memo fields are not keyed by query arguments (statement's proviso)"),
+    "C08": ("other",
+            "P: make_N_invariants executed on symbolic complex coefficient vectors — for every degree (symbolic loop index) the slice read is exactly [l^2,(l+1)^2), and for L<=3 instances N_l^2 equals the block sum of |c|^2 (certificates). G: every Clebsch-Gordan value the bispectrum can request up to l_max 12 (23 thorough) equals the exact Racah value; count and order of invariants for l_max 0..12. B: rotation invariance of N, P and power spectrum on seeded band-limited functions rotated by exact resampling (real and complex transforms), per-coefficient locality of N. Rotation invariance of the bispectrum expression itself is a cited theorem, the compiled kernel is only reached through run-time checks, hence level 'other'.",
+            "bispectrum theorem; compiled Cython kernel tied to its source only by run-time conformance; SHT exactness (C07)"),
 }
 
 NA_PENDING = "check not built yet in this session (see DESIGN.md section 8 build order)"
